@@ -1,0 +1,87 @@
+//go:build verif
+
+// Package verifhook provides named verification points (build tag "verif" only):
+// a crash point (the process SIGKILLs itself on the n-th hit of the label named in
+// VERIF_CRASH=label:n), in-process callbacks registered with On, and hit counters.
+package verifhook
+
+import (
+	"os"
+	"strconv"
+	"strings"
+	"sync"
+	"syscall"
+)
+
+var (
+	mu        sync.Mutex
+	hits      = map[string]int{}
+	callbacks = map[string]func(){}
+	crashOnce sync.Once
+	crashAt   string
+	crashN    int
+)
+
+func loadCrash() {
+	spec := os.Getenv("VERIF_CRASH")
+	if spec == "" {
+		return
+	}
+	i := strings.LastIndexByte(spec, ':')
+	if i < 0 {
+		crashAt, crashN = spec, 1
+		return
+	}
+	crashAt = spec[:i]
+	n, err := strconv.Atoi(spec[i+1:])
+	if err != nil || n < 1 {
+		n = 1
+	}
+	crashN = n
+}
+
+// Point marks a named point in the code.
+func Point(label string) {
+	crashOnce.Do(loadCrash)
+	mu.Lock()
+	hits[label]++
+	n := hits[label]
+	cb := callbacks[label]
+	mu.Unlock()
+	if crashAt != "" && label == crashAt && n == crashN {
+		if p := os.Getenv("VERIF_CRASH_MARK"); p != "" {
+			_ = os.WriteFile(p, []byte(label+":"+strconv.Itoa(n)), 0o644)
+		}
+		_ = syscall.Kill(os.Getpid(), syscall.SIGKILL)
+		select {} // never continue past a crash point
+	}
+	if cb != nil {
+		cb()
+	}
+}
+
+// On registers (or, with fn == nil, removes) the callback run at a label.
+func On(label string, fn func()) {
+	mu.Lock()
+	defer mu.Unlock()
+	if fn == nil {
+		delete(callbacks, label)
+		return
+	}
+	callbacks[label] = fn
+}
+
+// Hits returns how often a label was passed.
+func Hits(label string) int {
+	mu.Lock()
+	defer mu.Unlock()
+	return hits[label]
+}
+
+// Reset clears counters and callbacks.
+func Reset() {
+	mu.Lock()
+	defer mu.Unlock()
+	hits = map[string]int{}
+	callbacks = map[string]func(){}
+}
